@@ -67,8 +67,8 @@ Open Scope string_scope.
 Definition o0 : wopts := {| strict := false; strict_allow_default := false; disable_tuple := false |}.
 Definition ostrict : wopts := {| strict := true; strict_allow_default := false; disable_tuple := false |}.
 Definition dict (l : list (string * pyval)) : pyval := PDict (map (fun p => (PStr (s2b (fst p)), snd p)) l).
-(* a dict whose "-type" entry names no record branch but which fits a map branch: validate accepts it as a map, the
-   writer only looks for the record named by the hint *)
+(* (repaired in 9496e1e + bf75db4: a dict whose "-type" entry names no record branch but which fits a map branch is now
+   rejected by validate as well as by the writer; regression witness in the Example below) *)
 Definition th_schema : schema :=
   SUnion [SRecord (s2b "A") [] [mkField (s2b "x") SInt None []]; SMap (SUnion [SInt; SString])].
 Definition th_datum : pyval := dict [("x", PInt 1); ("-type", PStr (s2b "B"))].
@@ -82,7 +82,6 @@ Definition f9_schema : schema := SRecord (s2b "R") [] [mkField (s2b "a") (SAnnot
 Definition d_schema : schema := SRecord (s2b "R") [] [mkField (s2b "a") SInt (Some (PInt 3)) []].
 
 Theorem C10_writer_accepts_refuted :
-  (validate 9 o0 [] th_schema (Some th_datum) = Ok true /\ elab 9 o0 [] th_schema th_datum = WErr) /\
   (validate 9 o0 [] tv_schema (Some tv_datum) = Ok true /\ elab 9 o0 [] tv_schema tv_datum = WErr) /\
   (validate 9 ostrict [] d_schema (Some (dict [])) = Ok true /\ forall f, elab f ostrict [] d_schema (dict []) = WErr \/ f = O) /\
   (validate 9 ostrict [] d_schema (Some (dict [("a", PInt 1); ("zz", PInt 2)])) = Ok true /\
@@ -93,7 +92,6 @@ Proof.
   assert (W : forall o s v, validate 9 o [] s (Some v) = Ok true -> (forall f, elab (S f) o [] s v = WErr) ->
             validate 9 o [] s (Some v) = Ok true /\ forall f, elab f o [] s v = WErr \/ f = O).
   { intros o s v H1 H2. split; [exact H1|]. intros [|f]; [right; reflexivity|left; apply H2]. }
-  split; [split; vm_compute; reflexivity|].
   split; [split; vm_compute; reflexivity|].
   split; [apply W; [|intros f]; vm_compute; reflexivity|].
   split; [apply W; [|intros f]; vm_compute; reflexivity|].
@@ -107,8 +105,7 @@ Print Assumptions C10_writer_accepts_refuted.
     write_record's _accepts_null recognises (null, dict-form null, a union with such a branch) -- by C10_absent_field_agrees
     this is implied by validate's acceptance for schemas as parse_schema produces them; (3) at every union reached, the
     validator gives a verdict (no foreign exception, fuel n suffices) on every branch, because the search may try branches
-    validate never looked at, and a "-type" entry of the datum names every branch the datum validates against.
-    Then from some fuel on the writer elaborates the datum. *)
+    validate never looked at.  Then from some fuel on the writer elaborates the datum. *)
 Theorem C10_writer_accepts_partial : forall n o e s v f,
   strict o = false /\ strict_allow_default o = false ->
   wdom n o e s v -> validate f o e s (Some v) = Ok true ->
@@ -155,14 +152,14 @@ Proof.
   unfold wr, wv, dict. cbn [map fst snd]. apply wdom_record.
   constructor; [|constructor; [|constructor; [|constructor]]]; unfold field_wdom; cbn [fname ftype fdefault]; dget; cbv iota beta.
   - split; [reflexivity|]. apply wdom_union_plain; [discriminate|].
-    constructor; [|constructor; [|constructor]]; (split; [eexists; split; [vm_compute; reflexivity|intros _; vm_compute; reflexivity]|exact I]).
+    constructor; [|constructor; [|constructor]]; (split; [eexists; vm_compute; reflexivity|exact I]).
   - split; [intros z E; injection E as <-; eexists; vm_compute; reflexivity|].
     intros b E. vm_compute in E. injection E as <-. apply wdom_float.
     + intros z E; discriminate.
     + intros b E. vm_compute in E. injection E as <-. eexists; vm_compute; reflexivity.
   - eapply wdom_array; [reflexivity|]. constructor; [|constructor; [|constructor]].
     + apply wdom_union_plain; [discriminate|].
-      constructor; [|constructor; [|constructor]]; (split; [eexists; split; [vm_compute; reflexivity|intros _; vm_compute; reflexivity]|exact I]).
+      constructor; [|constructor; [|constructor]]; (split; [eexists; vm_compute; reflexivity|exact I]).
     + eapply wdom_union_hint; [reflexivity|vm_compute; reflexivity|exact I].
 Qed.
 
@@ -180,5 +177,7 @@ Example C10_example :
      a field of dict-form null type may be absent (F9, e5b1421) *)
   validate 9 o0 ex_env (SUnion [SInt; SString]) (Some (PTuple [PInt 1; PInt 2; PInt 3])) = Ok false /\
   validate_raise 9 o0 ex_env (SUnion [SInt; SString]) (Some (PTuple [PInt 1; PInt 2; PInt 3])) = VRaised /\
-  validate 9 o0 [] f9_schema (Some (dict [])) = Ok true /\ elab 9 o0 [] f9_schema (dict []) = WOk (ARecord [ANull]).
-Proof. split; [|split; [|split; [|split; [|split; [|split; [|split; [|split]]]]]]]; vm_compute; reflexivity. Qed.
+  validate 9 o0 [] f9_schema (Some (dict [])) = Ok true /\ elab 9 o0 [] f9_schema (dict []) = WOk (ARecord [ANull]) /\
+  (* a "-type" entry naming no record branch: rejected by validate and by the writer, although the map branch would fit *)
+  validate 9 o0 [] th_schema (Some th_datum) = Ok false /\ elab 9 o0 [] th_schema th_datum = WErr.
+Proof. split; [|split; [|split; [|split; [|split; [|split; [|split; [|split; [|split; [|split]]]]]]]]]; vm_compute; reflexivity. Qed.
